@@ -135,6 +135,19 @@ pub open spec fn own_at<V: Value>(e: Endian, c: Cells<V>, x: u64) -> Option<u8> 
     }
 }
 
+/// the memory's own bytes as a map
+pub open spec fn own_map_of<V: Value>(e: Endian, c: Cells<V>) -> IMap<u64, u8> {
+    IMap::new(|x: u64| own_at(e, c, x) is Some, |x: u64| own_at(e, c, x).unwrap())
+}
+
+/// a byte map overridden on [address, address + |v|) by the bytes of v in address order
+pub open spec fn override_bytes<V: Value>(m: IMap<u64, u8>, address: u64, e: Endian, v: V) -> IMap<u64, u8> {
+    IMap::new(
+        |x: u64| (address <= x < address + vlen(v)) || m.contains_key(x),
+        |x: u64| if address <= x < address + vlen(v) { vbyte(e, v, x - address) } else { m[x] },
+    )
+}
+
 /// the backing's byte at x
 pub open spec fn bk_at(bk: Option<SecMap>, x: int) -> Option<u8> {
     match bk {
